@@ -1,5 +1,6 @@
 """C04 - Terrapin exposure flagged exactly per the published rule (exhaustive product, both tiers)."""
 import json
+import re
 import time
 
 from mc import evidence, harness as H, par, peer, report
@@ -132,7 +133,7 @@ def build(case):
 def run_one(case, fmt):
     role, marker, ch, cb, et = case[:5]
     kex, enc, mac = build(case)
-    opts = ['-n'] + (['-j'] if fmt == 'json' else [])
+    opts = ['-n'] + (['-j'] if fmt.startswith('json') else []) + (fmt.split('+', 1)[1].split() if '+' in fmt else [])
     if len(case) > 5 and case[5].startswith('asym:'):
         return run_asym(case, fmt, kex, opts)
     hang = len(case) > 5 and case[5] == 'hangup'
@@ -179,7 +180,11 @@ def run_asym(case, fmt, kex, opts):
 def check_case(case, st):
     role, marker, ch, cb, et = case[:5]
     problems = []
-    for fmt in ('text', 'json'):
+    fmts = ['text', 'json']
+    if len(case) > 5 and case[5] in ('mixed', 'unrecognised', 'flawless'):
+        # the JSON document does not depend on the minimum level or on verbosity; the text report at -v says the same about Terrapin
+        fmts += ['json+-l fail', 'json+-l warn', 'json+-v', 'json+-j', 'text+-v', 'text+-b']
+    for fmt in fmts:
         res, kex, enc, mac = run_one(case, fmt)
         has_marker = T.marker_present(kex, role == 'client')
         v_enc, v_mac = T.exposed(enc, mac)
@@ -193,7 +198,7 @@ def check_case(case, st):
             problems.append(('crash:%s:%s' % (exc, '+'.join(kinds)), 'status %r: %s' % (res.status, last[0])))
             continue
         flagged, noted, added = [], None, []
-        if fmt == 'text':
+        if fmt.startswith('text'):
             rep = report.TextReport(res.stdout)
             for cat in ('kex', 'key', 'enc', 'mac'):
                 for a in rep.algs[cat]:
@@ -250,7 +255,15 @@ def check_case(case, st):
                 break       # which half decides what counts as "disabled by the operator" is not fixed by the property when the halves differ
             if T.is_chacha(n) or T.is_cbc(n) or T.is_etm(n):
                 problems.append(('recommends-adding:%s:%s' % (fmt, n), 'recommended for addition: %s' % n))
-    return problems
+    # a problem the plain text / JSON run of the same case shows as well is reported once, under the plain format
+    plain = set(sig for sig, _d in problems if ':text:' in sig + ':' or ':json:' in sig + ':')
+    out = []
+    for sig, d in problems:
+        m = re.search(r':((?:text|json)\+[^:]*)(:|$)', sig)
+        if m and sig.replace(m.group(1), m.group(1).split('+')[0]) in plain:
+            continue
+        out.append((sig, d))
+    return out
 
 
 def work(chunk, st):
